@@ -6,6 +6,8 @@ CONSTANTS
   NoDupRead = TRUE
   LoseMinKey = FALSE
   EarlyClean = FALSE
+  WithExclusive = FALSE
+  ExclLe = FALSE
   WithAborts = FALSE
 INVARIANTS Serializable OutcomeTruthful RetainsOverlapping
 PROPERTIES SnapshotStable AtomicCommit
